@@ -640,6 +640,9 @@ func (c *CEDARTLSConnection) sendMessage(ctx context.Context, data []byte) error
 	return nil
 }
 
+// maxSSLRecordLen bounds one TLS-over-CEDAR message (AUTH_SSL_BUF_SIZE in HTCondor).
+const maxSSLRecordLen = 1024 * 1024
+
 // receiveMessage receives TLS handshake data following HTCondor's exact protocol:
 // status (int) + length (int) + data bytes
 func (c *CEDARTLSConnection) receiveMessage(ctx context.Context) ([]byte, error) {
@@ -657,14 +660,15 @@ func (c *CEDARTLSConnection) receiveMessage(ctx context.Context) ([]byte, error)
 		return nil, fmt.Errorf("failed to get TLS data length: %w", err)
 	}
 
-	// HTCondor protocol: receive data bytes third (if length > 0)
-	data := make([]byte, length)
-	for i := 0; i < length; i++ {
-		b, err := msg.GetChar(ctx)
-		if err != nil {
-			return nil, fmt.Errorf("failed to get TLS data byte %d: %w", i, err)
-		}
-		data[i] = b
+	// HTCondor protocol: receive data bytes third (if length > 0). The length
+	// comes from the peer: bound it (HTCondor's AUTH_SSL_BUF_SIZE is 1 MiB), and
+	// let GetBytes allocate only once the bytes have actually arrived.
+	if length < 0 || length > maxSSLRecordLen {
+		return nil, fmt.Errorf("invalid TLS data length %d (max %d)", length, maxSSLRecordLen)
+	}
+	data, err := msg.GetBytes(ctx, length)
+	if err != nil {
+		return nil, fmt.Errorf("failed to get TLS data (%d bytes): %w", length, err)
 	}
 
 	// Update peer status
